@@ -128,7 +128,7 @@ def main(tier, seed):
     t0 = time.time()
     rep = C.Reporter(PID, tier, seed)
     C.build(['num'])
-    shards, per = (32, 2000) if tier == 'quick' else (96, 6250)
+    shards, per = (32, 2000) if tier == 'quick' else (160, 12500)
     bad, hist, samples, n = N.run_sharded(MOD, tier, seed, shards, per)
     for c, why in bad:
         rep.violation('num:' + c['script'], 'BigNum result differs from the mathematical integer',
